@@ -1,1 +1,382 @@
-//! Routing oracles: C05 (roles), C06 (shards), C07 (bans).
+//! Routing oracles: C07 (bans and failover). C05/C06 follow below.
+
+use super::*;
+
+struct BanTimeline {
+    /// (us, seq, banned host:port set)
+    pts: Vec<(u64, u64, BTreeSet<String>)>,
+    primary_banned: Vec<(u64, String)>,
+}
+
+fn ban_timeline(h: &History) -> BanTimeline {
+    let mut pts: Vec<(u64, u64, BTreeSet<String>)> = Vec::new();
+    let mut primary_banned = Vec::new();
+    let mut add = |us: u64, seq: u64, list: &Vec<String>, pts: &mut Vec<(u64, u64, BTreeSet<String>)>| {
+        let mut set = BTreeSet::new();
+        for e in list {
+            let parts: Vec<&str> = e.split('|').collect();
+            if parts.len() >= 2 {
+                set.insert(parts[0].to_string());
+                if parts[1] == "primary" {
+                    primary_banned.push((seq, e.clone()));
+                }
+            }
+        }
+        pts.push((us, seq, set));
+    };
+    // sampled views (periodic + per statement): only used to look for a banned primary
+    let mut sampled: Vec<(u64, u64, BTreeSet<String>)> = Vec::new();
+    for (seq, us, list) in &h.ban_samples {
+        add(*us, *seq, list, &mut sampled);
+    }
+    // exact timeline from PgCat's own ban-list change notes
+    let mut cur: BTreeSet<String> = BTreeSet::new();
+    pts.push((0, 0, cur.clone()));
+    for n in simcore::observe::notes() {
+        match n.kind {
+            "ban" => {
+                cur.insert(n.detail.clone());
+            }
+            "unban" | "unban_expired" => {
+                cur.remove(&n.detail);
+            }
+            "unban_all" => cur.clear(),
+            _ => continue,
+        }
+        pts.push((n.us, n.seq, cur.clone()));
+    }
+    pts.sort_by_key(|p| (p.0, p.1));
+    BanTimeline { pts, primary_banned }
+}
+
+impl BanTimeline {
+    fn banned_at(&self, host: &str, us: u64) -> bool {
+        let mut st = false;
+        for (t, _, set) in &self.pts {
+            if *t > us {
+                break;
+            }
+            st = set.contains(host);
+        }
+        st
+    }
+    /// banned at `a` and in every sample in (a, b]
+    fn banned_throughout(&self, host: &str, a: u64, b: u64) -> bool {
+        if !self.banned_at(host, a) {
+            return false;
+        }
+        self.pts.iter().filter(|(t, _, _)| *t > a && *t <= b).all(|(_, _, s)| s.contains(host))
+    }
+    /// appears in the ban list in some sample in [a, b] (or is banned at a)
+    fn seen_banned(&self, host: &str, a: u64, b: u64) -> bool {
+        self.banned_at(host, a) || self.pts.iter().any(|(t, _, s)| *t >= a && *t <= b && s.contains(host))
+    }
+    /// not banned at `a` and in no sample in (a, b]
+    fn unbanned_throughout(&self, host: &str, a: u64, b: u64) -> bool {
+        if self.banned_at(host, a) {
+            return false;
+        }
+        self.pts.iter().filter(|(t, _, _)| *t > a && *t <= b).all(|(_, _, s)| !s.contains(host))
+    }
+}
+
+struct Topo {
+    hosts: Vec<(String, String)>, // (addr, role)
+    windows: Vec<(String, String, u64, u64)>, // host, kind, from_us, to_us
+    stale: Vec<(String, u64, u64)>,   // host, killed_us, pgcat_closed_us
+    admin_cmds: Vec<(String, u64, u64)>, // host named in BAN/UNBAN, sent_us, done_us
+}
+
+fn topo(cx: &Ctx) -> Topo {
+    let h = cx.h;
+    let hosts: Vec<(String, String)> = cx.spec.hosts.iter().filter(|x| x.role != "mirror").map(|x| (x.addr.clone(), x.role.clone())).collect();
+    // fault windows from the actions that actually ran (so that minimised specs stay truthful)
+    let mut windows: Vec<(String, String, u64, u64)> = Vec::new();
+    let mut open_mode: BTreeMap<String, (String, u64)> = BTreeMap::new();
+    let mut open_beh: BTreeMap<String, (String, u64)> = BTreeMap::new();
+    for (_, us, js) in &h.actions {
+        let a: serde_json::Value = serde_json::from_str(js).unwrap_or_default();
+        let host = a["host"].as_str().unwrap_or("").to_string();
+        match a["a"].as_str().unwrap_or("") {
+            "host_mode" => {
+                let mode = a["mode"].as_str().unwrap_or("");
+                if let Some((k, from)) = open_mode.remove(&host) {
+                    windows.push((host.clone(), k, from, *us));
+                }
+                if mode != "up" {
+                    open_mode.insert(host, (if mode == "hang" { "hang".into() } else { "down".into() }, *us));
+                }
+            }
+            "host_behaviour" => {
+                let b = a["b"].as_str().unwrap_or("");
+                if let Some((k, from)) = open_beh.remove(&host) {
+                    windows.push((host.clone(), k, from, *us));
+                }
+                if b != "normal" {
+                    open_beh.insert(host, (b.split(':').next().unwrap_or("").to_string(), *us));
+                }
+            }
+            _ => {}
+        }
+    }
+    for (host, (k, from)) in open_mode.into_iter().chain(open_beh.into_iter()) {
+        windows.push((host, k, from, u64::MAX / 4));
+    }
+    let mut stale = Vec::new();
+    for c in &h.backend_conns {
+        if c.kind == "session" && (c.close_how == "killed" || c.close_how == "silent") {
+            let k = c.closed_us.unwrap_or(0);
+            let p = simcore::net::world::pgcat_closed_at(c.net_conn).map(|(_, us)| us).unwrap_or(u64::MAX);
+            stale.push((c.host.clone(), k, p));
+        }
+    }
+    let mut admin_cmds = Vec::new();
+    for a in h.clients.values().filter(|c| c.role == "admin") {
+        for s in &a.steps {
+            if s.op != "send" {
+                continue;
+            }
+            let sql = proto::split_all(&s.sent).0.first().and_then(|m| proto::Reader::new(&m.body).cstr()).unwrap_or_default();
+            let toks: Vec<&str> = sql.split_whitespace().collect();
+            if toks.len() >= 2 && (toks[0].eq_ignore_ascii_case("BAN") || toks[0].eq_ignore_ascii_case("UNBAN")) {
+                admin_cmds.push((toks[1].to_string(), s.start_us, s.done_us));
+            }
+        }
+    }
+    Topo { hosts, windows, stale, admin_cmds }
+}
+
+impl Topo {
+    fn faulty_in(&self, host: &str, a: u64, b: u64) -> bool {
+        // padded: a fault's effects (half-open connections being torn down) linger a little
+        self.windows.iter().any(|(h, _, f, t)| h == host && *f <= b + 5_000 && t.saturating_add(60_000) >= a)
+    }
+    fn silent_in(&self, host: &str, a: u64, b: u64) -> bool {
+        self.windows.iter().any(|(h, k, f, t)| h == host && k == "silent" && *f <= b + 5_000 && t.saturating_add(60_000) >= a)
+    }
+    fn stale_in(&self, host: &str, a: u64, b: u64) -> bool {
+        self.stale.iter().any(|(h, k, p)| h == host && *k <= b && *p >= a)
+    }
+    fn admin_touched(&self, host: &str, a: u64, b: u64) -> bool {
+        self.admin_cmds.iter().any(|(h, s, d)| host.starts_with(&format!("{}:", h)) && *s <= b + 5_000 && *d + 5_000 >= a)
+    }
+    fn healthy(&self, host: &str, a: u64, b: u64) -> bool {
+        !self.faulty_in(host, a, b) && !self.stale_in(host, a, b)
+    }
+    fn replicas(&self) -> Vec<&String> {
+        self.hosts.iter().filter(|(_, r)| r == "replica").map(|(h, _)| h).collect()
+    }
+}
+
+fn client_role(cx: &Ctx, id: u32) -> String {
+    let r = cx.spec.params.get("client_roles").and_then(|m| m.get(id.to_string())).and_then(|v| v.as_str()).unwrap_or("default").to_string();
+    if r == "default" {
+        cx.param_str("default_role")
+    } else {
+        r
+    }
+}
+
+fn eligible<'a>(t: &'a Topo, role: &str) -> Vec<&'a String> {
+    t.hosts.iter().filter(|(_, r)| role == "any" || role.is_empty() || r == role).map(|(h, _)| h).collect()
+}
+
+pub fn c07_bans(cx: &mut Ctx) {
+    let h = cx.h;
+    let bt = ban_timeline(h);
+    let t = topo(cx);
+    let ct = cx.param_u64("connect_timeout", 5000) * 1000;
+    let hct = cx.param_u64("healthcheck_timeout", 1000) * 1000;
+    let st = cx.param_u64("statement_timeout", 0) * 1000;
+    // (D) the primary is never banned
+    if let Some((seq, e)) = bt.primary_banned.first() {
+        cx.v("C07", "primary_banned", "C07/primary_banned", *seq, format!("the ban list contains a primary: {}", e));
+    }
+    if bt.pts.iter().any(|(_, _, s)| !s.is_empty()) {
+        cx.probe("c07_some_ban_seen");
+    }
+    let all_replicas_banned_at = |us: u64| -> bool {
+        let reps = t.replicas();
+        !reps.is_empty() && reps.iter().all(|r| bt.banned_at(r, us))
+    };
+    for c in h.clients.values() {
+        if !is_data_client(c) || c.auth_result != "ok" {
+            continue;
+        }
+        let role = client_role(cx, c.id);
+        let elig = eligible(&t, &role);
+        let mut idle_before = true;
+        for s in &c.steps {
+            if s.op != "send" || s.tags.is_empty() {
+                continue;
+            }
+            let (w0, w1) = (s.start_us, s.done_us);
+            let sql = String::from_utf8_lossy(&s.sent).to_string();
+            let self_inflicted = sql.contains("sim_close(") || sql.contains("sim_hang(");
+            let perr = pooler_error(&s.msgs);
+            let serr = server_error(&s.msgs);
+            let failed = !step_ok(s) || perr.is_some() || serr.is_some();
+            // where did it run?
+            let mut ran_on: Option<(String, u64)> = None;
+            for tg in &s.tags {
+                if let Some(v) = cx.ix.exec_by_tag.get(tg) {
+                    for si in v {
+                        let e = &h.stmts[*si];
+                        if e.rec.seq >= s.start_seq && e.rec.seq <= s.done_seq && ran_on.as_ref().map(|(_, us)| e.us < *us).unwrap_or(true) {
+                            ran_on = Some((h.backend_conns[e.conn].host.clone(), e.us));
+                        }
+                    }
+                }
+            }
+            // (E) detection bound
+            let bound = elig.len() as u64 * 2 * (ct + hct) + st + 2_000_000;
+            if w1 - w0 > bound {
+                cx.v("C07", "detection_bound_exceeded", "C07/detection_bound_exceeded", s.done_seq, format!("client {} step {} took {} ms; bound from the configured timeouts is {} ms", c.id, s.idx, (w1 - w0) / 1000, bound / 1000));
+            }
+            let usable = |hst: &String| -> bool { t.healthy(hst, w0.saturating_sub(20_000), w1) && (bt.unbanned_throughout(hst, w0.saturating_sub(6_000), w1) || (all_replicas_banned_at(w0.saturating_sub(6_000)) && !t.admin_touched(hst, w0, w1))) };
+            if failed {
+                if self_inflicted {
+                    cx.probe("c07_break_mid_statement");
+                    // (F) the broken replica is banned
+                    if let Some((x, _)) = &ran_on {
+                        let is_rep = t.hosts.iter().any(|(hh, r)| hh == x && r == "replica");
+                        let at = w1 + 6_000;
+                        // (if banning x made every replica banned, the next checkout clears the whole list)
+                        let other_unbanned = t.replicas().iter().any(|r| *r != x && bt.unbanned_throughout(r, w0.saturating_sub(6_000), at));
+                        if is_rep && other_unbanned && !bt.seen_banned(x, w0, at + 20_000) && !t.admin_touched(x, w0, at) {
+                            // a ban shorter than the sampling period cannot happen (ban_time >= 1 s)
+                            cx.v("C07", "broken_replica_not_banned", "C07/broken_replica_not_banned", s.done_seq, format!("replica {} closed its connection while executing client {} step {}, but is not in the ban list afterwards", x, c.id, s.idx));
+                        }
+                    }
+                } else if idle_before {
+                    let usable_hosts: Vec<&&String> = elig.iter().filter(|x| usable(x)).collect();
+                    cx.probe("c07_failure_judged");
+                    // A server that is hung (accepts, never answers) or whose pooled connections were
+                    // killed cannot be told from a healthy one before it is used: if PgCat was entitled
+                    // to pick such a server (it was not banned during the whole window), this is the
+                    // "breaks while executing a client's statement" case and the failure is legitimate.
+                    let a0 = w0.saturating_sub(6_000);
+                    let may_have_hit_broken = elig.iter().any(|f| (t.silent_in(f, w0, w1) || t.stale_in(f, w0, w1)) && !bt.banned_throughout(f, a0, w1));
+                    if may_have_hit_broken {
+                        cx.probe("c07_failure_justified_break_mid_statement");
+                    } else if !usable_hosts.is_empty() {
+                        let class = match (&perr, &serr, &s.outcome) {
+                            (Some(m), _, _) if m.contains("could not get connection") => "checkout_refused",
+                            (Some(m), _, _) if m.contains("statement timeout") => "statement_timeout",
+                            (Some(m), _, _) if m.contains("error receiving data") => "server_error_relayed",
+                            (Some(_), _, _) => "pooler_error",
+                            (None, Some(_), _) => "server_error",
+                            (None, None, StepOutcome::Timeout) => "no_reply",
+                            _ => "client_dropped",
+                        };
+                        cx.v("C07", "unjustified_failure", &format!("C07/unjustified_failure/{}", class), s.done_seq, format!("client {} (role {}) step {} failed ({:?} / {:?} / {:?}) although {:?} was up, not stale and not banned during the whole checkout window [{}..{}] ms", c.id, role, s.idx, perr, serr.as_ref().map(|e| &e.0), s.outcome, usable_hosts, w0 / 1000, w1 / 1000));
+                    } else {
+                        cx.probe("c07_failure_justified");
+                    }
+                }
+            } else if let Some((x, xus)) = &ran_on {
+                // wrong role is C05's business; here: bans
+                if idle_before {
+                    let a = w0.saturating_sub(6_000);
+                    if bt.banned_throughout(x, a, *xus) && t.healthy(x, a, *xus) && !t.admin_touched(x, a, *xus) {
+                        let alt: Vec<&&String> = elig.iter().filter(|y| *y != &x && t.healthy(y, a.saturating_sub(20_000), *xus) && bt.unbanned_throughout(y, a, *xus)).collect();
+                        if !alt.is_empty() {
+                            cx.v("C07", "banned_replica_used", "C07/banned_replica_used", s.done_seq, format!("client {} step {} ran on {} which was in the ban list from before the request was sent until the statement reached it, while {:?} was up and not banned", c.id, s.idx, x, alt));
+                        }
+                    }
+                    if t.hosts.iter().any(|(_, _)| true) && bt.pts.iter().any(|(tt, _, set)| *tt <= w0 && !set.is_empty() && !set.contains(x)) {
+                        cx.probe("c07_routed_around_ban");
+                    }
+                    // (H) a hung / dead candidate that cost us a timeout must be banned now
+                    let lat = w1 - w0;
+                    if lat as f64 >= 0.9 * (hct.min(ct) as f64) {
+                        let faulty: Vec<&String> = elig.iter().cloned().filter(|y| t.faulty_in(y, w0, w1)).collect();
+                        if faulty.len() == 1 {
+                            let f = faulty[0];
+                            let is_rep = t.hosts.iter().any(|(hh, r)| hh == f && r == "replica");
+                            let at = w1 + 6_000;
+                            let other_unbanned = t.replicas().iter().any(|r| *r != f && bt.unbanned_throughout(r, w0.saturating_sub(6_000), at));
+                            // the fault must have covered the whole wait (otherwise the server may have answered in the end)
+                            let covered = t.windows.iter().any(|(hh, _, ff, tt)| hh == f && *ff + 5_000 <= w0 && *tt >= w1 + 10_000);
+                            if is_rep && other_unbanned && covered && f != x && !bt.seen_banned(f, w0, at + 20_000) && !t.admin_touched(f, w0, at) {
+                                cx.v("C07", "dead_replica_not_banned", "C07/dead_replica_not_banned_after_timeout", s.done_seq, format!("client {} step {} waited {} ms (>= a health-check/connect timeout) while only {} was faulty, was then served by {}, but {} is not in the ban list afterwards", c.id, s.idx, lat / 1000, f, x, f));
+                            }
+                            if covered {
+                                cx.probe("c07_transparent_failover_after_timeout");
+                            }
+                        }
+                    }
+                }
+            }
+            idle_before = matches!(s.outcome, StepOutcome::Ready(b'I'));
+        }
+    }
+}
+
+/// C07 — a ban ends after ban_time / the admin duration / UNBAN.
+pub fn c07_expiry(cx: &mut Ctx) {
+    let h = cx.h;
+    let mode = cx.param_str("expiry_mode");
+    let ban_secs = cx.param_u64("ban_secs", 1);
+    let r0 = "pg-s0-r0:5432";
+    // when did the ban begin / end (upper bound)?
+    let admin_step_done = |prefix: &str| -> Option<u64> {
+        for a in h.clients.values().filter(|c| c.role == "admin") {
+            for s in &a.steps {
+                let sql = proto::split_all(&s.sent).0.first().and_then(|m| proto::Reader::new(&m.body).cstr()).unwrap_or_default();
+                if sql.starts_with(prefix) && step_ok(s) {
+                    return Some(s.done_us);
+                }
+            }
+        }
+        None
+    };
+    let (begin, end_upper) = match mode.as_str() {
+        "admin_ban" => match admin_step_done("BAN ") {
+            Some(t) => (t, t + ban_secs * 1_000_000 + 2_500_000),
+            None => return,
+        },
+        "admin_unban" => match (admin_step_done("BAN "), admin_step_done("UNBAN ")) {
+            (Some(b), Some(u)) => (b, u + 50_000),
+            _ => return,
+        },
+        _ => (400_000, 400_000 + ban_secs * 1_000_000 + 2_500_000),
+    };
+    let quiet_until = match mode.as_str() {
+        "admin_ban" => begin + ban_secs * 1_000_000 - 100_000,
+        "admin_unban" => end_upper.saturating_sub(100_000),
+        _ => begin, // the ban may have started anywhere in [50, 400] ms: no quiet claim
+    };
+    let mut during = 0;
+    let mut after_total = 0;
+    let mut after_r0 = 0;
+    for e in &h.stmts {
+        if e.rec.tags.is_empty() {
+            continue;
+        }
+        let host = &h.backend_conns[e.conn].host;
+        if e.us > begin + 20_000 && e.us < quiet_until {
+            if host == r0 {
+                during += 1;
+                cx.v("C07", "banned_replica_used", "C07/banned_replica_used/expiry_family", e.rec.seq, format!("{} received a client statement at {} ms, inside its ban ({}..{} ms), while pg-s0-r1 was healthy", r0, e.us / 1000, begin / 1000, quiet_until / 1000));
+            }
+        }
+        if e.us > end_upper {
+            after_total += 1;
+            if host == r0 {
+                after_r0 += 1;
+            }
+        }
+    }
+    let _ = during;
+    if after_total >= 60 {
+        cx.probe("c07_expiry_judged");
+        if after_r0 == 0 {
+            cx.v("C07", "ban_never_ends", &format!("C07/ban_never_ends/{}", mode), 0, format!("{} statements ran after the ban of {} must have ended ({} ms) and none was routed to it (random load balancing over two healthy replicas)", after_total, r0, end_upper / 1000));
+        } else {
+            cx.probe("c07_ban_ended_and_replica_used_again");
+        }
+    } else {
+        cx.probe("c07_expiry_insufficient_samples");
+    }
+}
